@@ -83,6 +83,18 @@ def generate(rng: random.Random, tier: str):
              "emptyprops": rng.random() < 0.5, "minimal_md": rng.random() < 0.5, "shuffle": rng.randint(0, 1000),
              "bigendian": rng.random() < 0.2, "dlayout": rng.choice([0, 1, 2, 2])}
         yield {"kind": "converse", "variant": v, **g}
+    # offsets of variable-length rows (C02_converse_total): one row of one var-length property pointed just past / far past the end of
+    # `data` (the store stays structurally valid and must NOT be read as a graph), or an empty element given an offset far past the end
+    # (denotes the same empty section: must be read)
+    for i in range(90 if tier == "quick" else 900):
+        for _ in range(40):
+            g = gg.rand_graph(rng)
+            if any(p["values"].get("vlen") for ps in (g["nprops"], g["eprops"]) if ps for p in ps.values()):
+                break
+        v = {"fmt": rng.choice([2, 3]), "chunk": rng.choice([1, 2, None]), "compress": rng.random() < 0.5, "allfalse": rng.random() < 0.5,
+             "emptyprops": False, "minimal_md": rng.random() < 0.5, "shuffle": rng.randint(0, 1000), "bigendian": False,
+             "dlayout": rng.choice([0, 1, 2]), "spoil": ["tail", "beyond", "empty-far"][i % 3]}
+        yield {"kind": "converse", "variant": v, **g}
     # key-level negative controls: the fixed graph laid out by the independent writer with ONE wrong key / dtype; the Coq check
     # demands that the key-level reading of the specification rejects each (Corr/C02.v IKeysNeg)
     g = fixed_graph()
@@ -104,7 +116,10 @@ def _nm(v, name):
 
 
 # ---- independent writer (zarr API + numpy only) ----
-def my_serialize(elems, dlayout=0, seed=0):
+SPOILED = [None]   # what the last call of my_serialize did to the offsets (None / 'out-of-range' / 'empty-far')
+
+
+def my_serialize(elems, dlayout=0, seed=0, spoil=None):
     """docs/specification.md: data = the flattened elements, one row (offset, *shape) per element pointing at its section of data.
     The specification fixes no order of the sections inside `data`: dlayout 0 = element order, 1 = reversed, 2 = shuffled; an element
     without entries gets offset 0 whatever the layout (any offset denotes the same empty section)."""
@@ -122,6 +137,19 @@ def my_serialize(elems, dlayout=0, seed=0):
     dt = elems[0].dtype if len(elems) else np.dtype("int64")
     data = np.concatenate(chunks) if chunks else np.zeros(0, dtype=dt)
     width = 1 + (elems[0].ndim if len(elems) else 0)
+    spoiled = None
+    if spoil in ("tail", "beyond"):
+        cand = [i for i, e in enumerate(elems) if e.size]
+        if cand:
+            i = cand[seed % len(cand)]
+            rows[i][0] = len(data) - int(elems[i].size) + 1 if spoil == "tail" else len(data) + 5
+            spoiled = "out-of-range"
+    elif spoil == "empty-far":
+        cand = [i for i, e in enumerate(elems) if e.size == 0]
+        if cand:
+            rows[cand[seed % len(cand)]][0] = len(data) + 7
+            spoiled = "empty-far"
+    SPOILED[0] = spoiled
     return np.array(rows, dtype="uint64").reshape(len(elems), width), data.astype(dt)
 
 
@@ -161,6 +189,7 @@ def independent_store(c):
         md["extra"] = {"written_by": "independent"}
         md["axes"] = None
     tasks = []
+    spoiled = None
     for grp, ids, ps in (("nodes", nids, c["nprops"]), ("edges", eids, c["eprops"])):
         g = root.create_group(_nm(v, grp))
         tasks.append((g, _nm(v, "ids"), ids.astype("int64") if v.get("wrong") == "idsdtype" else ids))
@@ -181,7 +210,8 @@ def independent_store(c):
                             up[i_] = e_.astype("float32")
                         vals = up
                         pnp = dict(pnp, values=up)
-                    table, data = my_serialize(list(vals), v.get("dlayout", 0), v["shuffle"])
+                    table, data = my_serialize(list(vals), v.get("dlayout", 0), v["shuffle"], None if spoiled else v.get("spoil"))
+                    spoiled = spoiled or SPOILED[0]
                     tasks.append((sub, _nm(v, "values"), table))
                     tasks.append((sub, _nm(v, "data"), data))
                     dt, vl = dtype_name(data.dtype), True
@@ -207,6 +237,7 @@ def independent_store(c):
     if rng.random() < 0.5 or v["shuffle"] == 0:
         root.attrs["ome"] = {"version": "0.5"}
         root.create_group("segmentation")
+    c["_spoiled"] = spoiled
     return st, nids, eids, intended
 
 
@@ -367,18 +398,21 @@ def run_impl(c):
         obs["read"] = ["ok"]
     except Exception as e:
         obs["read"] = ["err", exn_name(e), str(e)[:120]]
-    if back is not None:
+    unreadable = c.get("_spoiled") == "out-of-range"
+    obs["spoiled"] = c.get("_spoiled")
+    if back is not None and not unreadable:
         native = lambda a: np.asarray(a).astype(np.asarray(a).dtype.newbyteorder("="))  # noqa: E731
         obs["diff"] = compare_graph(native(nids), native(eids), intended["nodes"], intended["edges"], loosen(back, intended))
     if tree_printable(tree):
         try:
             exp = c_sgraph(np.asarray(nids), np.asarray(eids), intended["nodes"], intended["edges"], it)
+            some_exp = "None" if unreadable else f"(Some {exp})"
             lib = f"(Ok {gg.c_mgraph(back, it)})" if back is not None else f"(Err {obs['read'][1]})"
-            obs["coq"] = f"(IStore {c_tree(tree)} (Some {exp}), OStore {cbool(obs['valid'])} {lib})"
+            obs["coq"] = f"(IStore {c_tree(tree)} {some_exp}, OStore {cbool(obs['valid'])} {lib})"
             if raw is not None:
                 kterm, _ = kst.c_kstore(raw)
                 head = "IKeysNeg" if c["kind"] == "keysneg" else "IStoreK"
-                exp_k = exp if c["kind"] == "keysneg" else f"(Some {exp})"
+                exp_k = exp if c["kind"] == "keysneg" else some_exp
                 obs["coq"] = (f"({head} {c_tree(tree)} {exp_k} {kst.c_fmt(raw['fmt'])} {kterm} {kst.geff_version_term(raw)}, "
                               f"OStore {cbool(obs['valid'])} {lib})")
                 obs["keys_tied"] = True
@@ -435,6 +469,11 @@ def oracle(c, o):
     if not o["valid"]:
         return Failure(c, slim(o), f"a {'library-written' if c['kind'] == 'forward' else 'spec-conformant, independently written'} store is "
                        f"rejected by structural validation: {o['valid_exc']}", {"why": "rejects-conformant", "kind": c["kind"]})
+    if o.get("spoiled") == "out-of-range":
+        if o["read"][0] == "ok":
+            return Failure(c, slim(o), "a variable-length offset row points outside its data array and read_to_memory returned a graph",
+                           {"why": "reads-out-of-range", "kind": c["kind"]})
+        return None
     if o["read"][0] != "ok":
         return Failure(c, slim(o), f"read_to_memory raised {o['read'][1]}: {o['read'][2]}", {"why": "read-raises", "kind": c["kind"]})
     if o.get("diff"):
@@ -462,5 +501,7 @@ def describe(c, o):
         return f"specstr:v{c['fmt']}:{'ok' if o.get('valid') and o.get('read', [''])[0] == 'ok' else 'err'}"
     if c["kind"] == "keysneg":
         return f"keysneg:v{v['fmt']}:{v['wrong']}"
+    if v is not None and v.get("spoil"):
+        return f"offs:{v['spoil']}:{o.get('spoiled') or 'not-applicable'}:{'read' if o.get('read', [''])[0] == 'ok' else 'refused'}"
     tag = "fwd:v%d" % c["fmt"] if v is None else f"conv:v{v['fmt']}:ch={v['chunk']}:z={int(v['compress'])}:af={int(v['allfalse'])}:ep={int(v['emptyprops'])}:min={int(v['minimal_md'])}:be={int(v['bigendian'])}:dl={v.get('dlayout', 0)}"
     return f"{tag}:N={c['nids']['shape'][0]}:{'ok' if o.get('valid') and o.get('read', [''])[0] == 'ok' else 'err'}"
